@@ -274,16 +274,19 @@ UNITS.append(U(
         'no port text => -1; no other flag touched'))
 
 # ======================================================================================================
-# 4. contract units (dfcc, unbounded symbolic length): safety, termination, provenance / adjacency chain
+# 4. contract unit (dfcc, symbolic length): safety, termination, provenance / adjacency chain -- WORK IN PROGRESS, does not close
 # ======================================================================================================
-AC = ['input length <= VCAP (symbolic), input is an inline or wrapped bstr that is only read',
+AC = ['input: inline bstr of constant capacity VCAP with symbolic length <= VCAP, only read',
       'bstr_dup_mem replaced by a provenance-logging stub (contract_c13_dup_mem): its precondition "source range lies inside the input buffer" is asserted at every call; '
       'that the copy is byte-identical is bstr_dup_mem\'s own contract (C17) and the bounded units',
       'memchr replaced by contract_c13_memchr (NULL or an occurrence inside the range): CBMC 6.11 has no memchr model',
       '*uri is NULL or a structure whose eight component pointers are NULL (htp_uri_alloc / calloc), as at every call site',
       'KNOWN_F_C13_IPV6: after a "[...]" literal the contract only claims host_end <= next component (no overlap), not adjacency']
 
-UNITS.append(U(
+# NOT REGISTERED: instruments fine, but the solver does not finish (see notes/c13.md "Contract units"): MiniSat and CaDiCaL time out
+# after 300-600 s even at C13_LEVEL 0.  Kept here so that the design (stub log, slot arithmetic, loop contracts) is not lost.
+WIP_UNITS = []
+WIP_UNITS.append(U(
     name='htp_parse_uri', props=['C13', 'C01'], kind='contract', src=['htp_util.c'], enforce='htp_parse_uri',
     replace=['bstr_dup_mem/contract_c13_dup_mem', 'memchr/contract_c13_memchr'], contracts_inc=['c13_uri.h'],
     loops={'htp_util.c': {'htp_parse_uri': {'count': 5,
@@ -293,7 +296,7 @@ UNITS.append(U(
         3: dict(assigns='pos', inv=['start <= pos', 'pos <= len'], dec='len - pos'),
         4: dict(assigns='pos', inv=['start <= pos + 1', 'pos <= len'], dec='len - pos')}}},
     harness='void HARNESS(void) { bstr *in; htp_uri_t **u; htp_parse_uri(in, u); CANARY(); }',
-    defs={'quick': {'VCAP': 64, 'C13_LEVEL': 0}, 'thorough': {'VCAP': 4096}}, min_obl=100, timeout=(400, 1800), objbits=12, assumes=AC,
+    defs={'quick': {'VCAP': 64, 'C13_LEVEL': 0}, 'thorough': {'VCAP': 4096}}, min_obl=100, timeout=(300, 1800), objbits=12, solver='--sat-solver cadical', assumes=AC,
     sub='htp_parse_uri for targets of ANY length: memory safety, termination, every component is taken from inside the target, and the full adjacency chain over the '
         'provenance log (scheme at 0 + ":", "//", user [":" password] "@", host [":" port], path, "?" query, "#" fragment, last component ends where the trailing '
         "spaces begin); '/'-targets have no scheme/authority"))
